@@ -499,21 +499,41 @@ func isErrorTypedVar(fn *FuncNode, e ast.Expr) bool {
 	return v.Pkg() == nil || v.Parent() != v.Pkg().Scope()
 }
 
-// guardedNonNil: stmt lies in the body of an if whose condition establishes o != nil.
+// guardedNonNil: stmt lies in a branch whose condition establishes o != nil: the body of
+// an if, the else of an if whose condition says o == nil, or a clause of a tagless switch
+// whose single case expression says o != nil.
 func guardedNonNil(fn *FuncNode, stmt ast.Node, o types.Object) bool {
 	if o == nil {
 		return false
 	}
 	found := false
-	ast.Inspect(fn.Body, func(n ast.Node) bool {
-		ifs, ok := n.(*ast.IfStmt)
-		if !ok || found {
-			return !found
+	within := func(a, b token.Pos) bool { return stmt.Pos() >= a && stmt.End() <= b }
+	establishes := func(cond ast.Expr, val bool) {
+		for _, f := range condFacts(fn, cond, val, 0) {
+			if oo, trueMeansNil, ok := nilCompare(fn, f.Atom); ok && oo == o && f.Val != trueMeansNil {
+				found = true
+			}
 		}
-		if stmt.Pos() >= ifs.Body.Pos() && stmt.End() <= ifs.Body.End() {
-			for _, f := range condFacts(fn, ifs.Cond, true, 0) {
-				if oo, trueMeansNil, ok := nilCompare(fn, f.Atom); ok && oo == o && f.Val != trueMeansNil {
-					found = true
+	}
+	ast.Inspect(fn.Body, func(n ast.Node) bool {
+		if found {
+			return false
+		}
+		switch v := n.(type) {
+		case *ast.IfStmt:
+			if within(v.Body.Pos(), v.Body.End()) {
+				establishes(v.Cond, true)
+			} else if v.Else != nil && within(v.Else.Pos(), v.Else.End()) {
+				establishes(v.Cond, false)
+			}
+		case *ast.SwitchStmt:
+			if v.Tag != nil {
+				break
+			}
+			for _, cc := range v.Body.List {
+				clause := cc.(*ast.CaseClause)
+				if len(clause.List) == 1 && len(clause.Body) > 0 && within(clause.Body[0].Pos(), clause.Body[len(clause.Body)-1].End()) {
+					establishes(clause.List[0], true)
 				}
 			}
 		}
